@@ -9,14 +9,28 @@ SIMPLE = (ast.Assign, ast.AugAssign, ast.AnnAssign, ast.Expr, ast.Pass, ast.Dele
           ast.Import, ast.ImportFrom, ast.Assert, ast.FunctionDef, ast.AsyncFunctionDef, ast.ClassDef)
 
 
-def _positive(test):
-    """Canonical test node: leading `not`s are stripped and the branch labels swapped accordingly, so that `if not c: A else: B`
-    and `if c: B else: A` give the same graph."""
-    tl, fl = 'T', 'F'
+_NEG = {ast.NotEq: ast.Eq, ast.LtE: ast.Gt, ast.Lt: ast.GtE, ast.IsNot: ast.Is, ast.NotIn: ast.In}
+
+
+def canon_atom(test):
+    """Canonical atomic test: leading `not`s stripped, a comparison with a negative operator (!=, <=, <, is not, not in) replaced by its
+    positive counterpart (==, >, >=, is, in).  -> (expression, swapped): swapped means the branch labels T/F exchange their meaning."""
+    swapped = False
     while isinstance(test, ast.UnaryOp) and isinstance(test.op, ast.Not):
         test = test.operand
-        tl, fl = fl, tl
-    return test, tl, fl
+        swapped = not swapped
+    if isinstance(test, ast.Compare) and len(test.ops) == 1 and type(test.ops[0]) in _NEG:
+        new = ast.Compare(left=test.left, ops=[_NEG[type(test.ops[0])]()], comparators=test.comparators)
+        ast.copy_location(new, test)
+        new._orig = test            # the comparison as written in the source
+        test = new
+        swapped = not swapped
+    return test, swapped
+
+
+def _positive(test):
+    t, sw = canon_atom(test)
+    return (t, 'F', 'T') if sw else (t, 'T', 'F')
 
 
 class Node:
@@ -115,28 +129,49 @@ class CFG:
             ins = self._stmt(s, ins)
         return ins
 
+    def _cond(self, e, ins, stmt):
+        """Short-circuit structure of a condition: one test node per atom (canonical, see canon_atom); `a and b`, `a or b`, `not` only
+        shape the edges.  -> (dangling edges when true, dangling edges when false, first test node)"""
+        if isinstance(e, ast.UnaryOp) and isinstance(e.op, ast.Not) and isinstance(e.operand, (ast.BoolOp, ast.UnaryOp)):
+            t, f, first = self._cond(e.operand, ins, stmt)
+            return f, t, first
+        if isinstance(e, ast.BoolOp):
+            first = None
+            cur = ins
+            short = []
+            for v in e.values:
+                t, f, n = self._cond(v, cur, stmt)
+                first = first or n
+                if isinstance(e.op, ast.And):
+                    short += f
+                    cur = t
+                else:
+                    short += t
+                    cur = f
+            return (cur, short, first) if isinstance(e.op, ast.And) else (short, cur, first)
+        atom, swapped = canon_atom(e)
+        n = self._new('test', atom, stmt)
+        self._connect(ins, n)
+        self._exc_edges(n)
+        t, f = [(n, 'T')], [(n, 'F')]
+        return (f, t, n) if swapped else (t, f, n)
+
     def _stmt(self, s, ins):
         if isinstance(s, ast.If):
-            test, tl, fl = _positive(s.test)
-            t = self._new('test', test, s)
-            self.node_of_stmt[s] = t
-            self._connect(ins, t)
-            self._exc_edges(t)
-            a = self._block(s.body, [(t, tl)])
-            b = self._block(s.orelse, [(t, fl)]) if s.orelse else [(t, fl)]
+            t_out, f_out, first = self._cond(s.test, ins, s)
+            self.node_of_stmt[s] = first
+            a = self._block(s.body, t_out)
+            b = self._block(s.orelse, f_out) if s.orelse else f_out
             return a + b
         if isinstance(s, ast.While):
-            test, tl, fl = _positive(s.test)
-            t = self._new('test', test, s)
-            self.node_of_stmt[s] = t
-            self._connect(ins, t)
-            self._exc_edges(t)
+            t_out, f_out, first = self._cond(s.test, ins, s)
+            self.node_of_stmt[s] = first
             breaks: List[Node] = []
-            self._loop_stack.append((t, breaks))
-            body_out = self._block(s.body, [(t, tl)])
+            self._loop_stack.append((first, breaks))
+            body_out = self._block(s.body, t_out)
             self._loop_stack.pop()
-            self._connect(body_out, t)
-            out = self._block(s.orelse, [(t, fl)]) if s.orelse else [(t, fl)]
+            self._connect(body_out, first)
+            out = self._block(s.orelse, f_out) if s.orelse else f_out
             return out + [(b, 'break') for b in breaks]
         if isinstance(s, (ast.For, ast.AsyncFor)):
             f = self._new('for', s.iter, s)
@@ -300,6 +335,16 @@ class CFG:
     def edge_filter_assuming(self, assumptions: Dict[str, bool]):
         """Edge filter that removes branch edges contradicting `assumptions`: normalised source text of an
         atomic condition -> truth value."""
+        canon = dict(assumptions)
+        for k, v in assumptions.items():
+            try:
+                e = ast.parse(k, mode='eval').body
+            except SyntaxError:
+                continue
+            a, sw = canon_atom(e)
+            canon.setdefault(unparse(a), (not v) if sw else v)
+        assumptions = canon
+
         def ok(n: Node, m: Node, lab: str) -> bool:
             if n.kind != 'test' or lab not in ('T', 'F'):
                 return True
